@@ -58,3 +58,4 @@ run "a127cb7 list-form merge chains" C10 -- a127cb7
 run "bf22a46 environment entries" C08 -- bf22a46
 run "a3599b9 interpolated markers" C07 -- a3599b9
 run "306671e yaml separators" C04 -- 306671e
+run "38477fe bkld empty toml layer" C15 -- 38477fe
